@@ -202,9 +202,9 @@ Definition flavour_legal (c : ctx) (k : nkind) : Prop :=
   | (KMulti | KSortedMulti), CTap => False
   | _, _ => True
   end.
-(* the kinds whose keys the tree stage looks at (pk_h keys are not among them) *)
+(* the kinds whose keys the tree stage looks at: every key-bearing kind *)
 Definition key_checked_kind (k : nkind) : bool :=
-  match k with KPkK | KMulti | KSortedMulti | KMultiA | KSortedMultiA => true | _ => false end.
+  match k with KPkK | KPkH | KMulti | KSortedMulti | KMultiA | KSortedMultiA => true | _ => false end.
 
 Record obeys_parse (c : ctx) (x : expr) : Prop := mkObeysParse {
   op_flavour : forall n, In n (s_nodes (x_sum x)) -> flavour_legal c (n_kind n);
